@@ -20,9 +20,15 @@ Record timing := mkTiming {
 Definition raw_stamp (tm : timing) (k : Z) : Q :=
   t_sync tm + t_first tm + inject_Z k * t_int tm + t_off tm.
 
-(* visdatav4.py: _before(date) looks at source.timestamps[0] of the OPENED (possibly preselected) source *)
+(* visdatav4.py (after the repair of F21): _before(date) looks at capture_start = first timestamp of the CAPTURE
+   (recorded by TelstateDataSource before the dump preselection) + time_offset, whatever dumps are preselected.
+   [needs_fix_pre] is the decision as it was before the repair (first PRESELECTED timestamp), kept for the record. *)
 Definition needs_fix (tm : timing) (a : Z) : bool :=
+  fix_rule (fun d => Qltb (raw_stamp tm 0) (inject_Z d)) (t_cmc2 tm) (t_cbf4k tm).
+Definition needs_fix_pre (tm : timing) (a : Z) : bool :=
   fix_rule (fun d => Qltb (raw_stamp tm a) (inject_Z d)) (t_cmc2 tm) (t_cbf4k tm).
+Definition model_timestamp_pre (tm : timing) (a i : Z) : Q :=
+  raw_stamp tm (a + i) - (if needs_fix_pre tm a then match t_cbf tm with Some c => c | None => 0 end else 0).
 
 Definition fix_amount (tm : timing) (a : Z) : Q :=
   if needs_fix tm a then match t_cbf tm with Some c => c | None => 0 end else 0.
